@@ -265,6 +265,16 @@ func c13UpstreamInputs(c *fw.Ctx, i int, name string) []c13Input {
 				scripts = append(scripts, sq)
 			}
 		}
+		// 401 answers whose WWW-Authenticate header is cut at every offset (lal then computes credentials from it)
+		for _, full := range []string{`Digest realm="lal", nonce="0123456789abcdef", algorithm="MD5", stale="FALSE"`, `Basic realm="lal"`} {
+			for n := 0; n <= len(full); n++ {
+				for _, pos := range []int{0, 1} {
+					sq := append([]string(nil), goodSeq...)
+					sq[pos] = "RTSP/1.0 401 Unauthorized\r\nCSeq: 1\r\nWWW-Authenticate: " + full[:n] + "\r\n\r\n"
+					scripts = append(scripts, sq)
+				}
+			}
+		}
 		// the SETUP answer's Transport header cut at every offset (lal reads server_port / interleaved from it)
 		for _, full := range []string{"RTP/AVP/TCP;unicast;interleaved=0-1", "RTP/AVP/UDP;unicast;client_port=5000-5001;server_port=6000-6001", "RTP/AVP;unicast;server_port=6000-6001;ssrc=1"} {
 			for n := 1; n <= len(full); n++ {
@@ -309,7 +319,7 @@ func c13UpstreamInputs(c *fw.Ctx, i int, name string) []c13Input {
 				})
 				before := stub.accepts()
 				// lal pulls RTSP over TCP or UDP (rtsp_mode): the answers are read differently
-				body, _ := json.Marshal(map[string]interface{}{"url": "rtsp://" + stub.addr + "/live/" + stream, "stream_name": stream, "pull_timeout_ms": 1500, "pull_retry_num": 0, "auto_stop_pull_after_no_out_ms": -1, "rtsp_mode": k % 2})
+				body, _ := json.Marshal(map[string]interface{}{"url": "rtsp://" + []string{"", "", "user:pa:ss@", "user@"}[(k/2)%4] + stub.addr + "/live/" + stream, "stream_name": stream, "pull_timeout_ms": 1500, "pull_retry_num": 0, "auto_stop_pull_after_no_out_ms": -1, "rtsp_mode": k % 2})
 				srv.HttpPostJson(s.ApiAddr(), "/api/ctrl/start_relay_pull", string(body), 3*time.Second)
 				waitAccept(before)
 				select {
